@@ -211,7 +211,8 @@ class BatchSpec(SeqSpec):
             ops += [["release-full"], ["release", "item", 3], ["quiesce"], ["next", 2, 2], ["quiesce"]]
         else:
             # the producer already holds item 3 when full() returns: the select sees c, timerC and waiting ready
-            ops = ops[:-2] + [["release", "item", 3], ["quiesce"], ["release-full"], ["release-full"], ["quiesce"],
+            # and the next consumer arrives at once, so a batch flushed by a stale timer is seen young
+            ops = ops[:-2] + [["release", "item", 3], ["release-full"], ["release-full"],
                               ["next", 2, 2], ["quiesce"]]
         if rng.random() < 0.5:
             ops += [["close"], ["quiesce"]]
@@ -389,7 +390,7 @@ class BatchSpec(SeqSpec):
         batches.sort(key=lambda t: t[2])
         for k, b, i in batches:
             if len(b) == 0:
-                fails.append(("empty-batch", "event %d: Next call %d returned an empty batch" % (i, k)))
+                fails.append(("empty-batch", "event %d: Next call %d returned an empty batch (scheduling-dependent when caused by a stale timer: the batcher's select picks among its ready arms at random; repeat the replay)" % (i, k)))
             if size >= 1 and len(b) > size:
                 fails.append(("oversize-batch", "event %d: Next call %d returned %d items, batchSize is %d" % (i, k, len(b), size)))
         nonempty = [(k, b, i) for k, b, i in batches if b]
